@@ -464,6 +464,8 @@ def discharge(e, facts, trace):
             return discharge_str_range(R, s, rng)
         if is_vec_index(e):
             v, k = argv[0], argv[1]
+            if isinstance(k, tuple) and k[0] == "agg" and isinstance(k[1], str) and k[1].endswith("RangeFull"):
+                return True, "full-range", "v[..] cannot panic"
             if is_int(k):
                 for atom, pol in R.f.order:
                     if atom[0] == "eq" and pol is True:
